@@ -28,15 +28,192 @@ package scheduler_util
 //@   ensures result == (node != nil && nodeFit(node))
 //@ end
 
-// ---- PriorityQueue (requested by helper "job"): counts and membership only, no ordering claims ----
+// ---- PriorityQueue (requested by helper "job"; ordering added by helper "pq") ---------------------
 // x is one of the first n elements of the queue's item slice
 //@ define pqHas(q *PriorityQueue, x interface{}, n int) bool = exists j int :: 0 <= j && j < n && q.queue.items[j] == x
 
+// C16: "Priority, then FIFO, decides between equal workloads of a queue ... the allocate action never
+// places a lower-priority one while leaving a higher-priority one unplaced". The queue hands out its
+// elements through a comparator lessFn(l, r) = "l is handed out before r".
+// lessV(f, l, r): abstract verdict of the comparator function value f (same device as
+// common_info.cmpVerdict for CompareFn). ASSUMED (field:priorityQueue.lessFn below): the function stored
+// in a queue is a pure, deterministic function of its two arguments.
+//@ declare lessV(f ref, l ref, r ref) bool
+//@ func field:priorityQueue.lessFn
+//@   props C16 C03
+//@   pure
+//@   ensures result == lessV(fn, arg0, arg1)
+//@   note assumed: the comparator stored in a priorityQueue is pure and a deterministic function of its two arguments (not of the heap state): true for the task / pod-set / job comparators while the compared objects keep their ordering keys; NOT true for the queue-node comparators of actions/utils (they look at the current best job below each node), for which no ordering clause is claimed
+//@ end
+// strict weak order: what container/heap needs from Less for "Pop returns the minimum". swo(f) is only ever a
+// HYPOTHESIS of ordering clauses (nothing establishes it: it is a property of the registered comparators); the
+// axioms below are its definition, used left to right.
+//@ declare swo(f ref) bool
+//@ axiom forall f ref, a ref :: swo(f) ==> !lessV(f, a, a)
+//@ axiom forall f ref, a ref, b ref, c ref :: swo(f) && lessV(f, a, b) && lessV(f, b, c) ==> lessV(f, a, c)
+//@ axiom forall f ref, a ref, b ref, c ref :: swo(f) && !lessV(f, a, b) && !lessV(f, b, c) ==> !lessV(f, a, c)
+// the heap invariants of container/heap on the item slice s: no child is handed out before its parent ...
+//@ define heapShape(s []interface{}, f ref) bool = forall p int :: 0 <= p ==> (2 * p + 1 < len(s) ==> !lessV(f, s[2 * p + 1], s[p])) && (2 * p + 2 < len(s) ==> !lessV(f, s[2 * p + 2], s[p]))
+// ... and their consequence (induction over the depth, for a strict weak order): nothing is handed out before the root
+//@ define rootFirst(s []interface{}, f ref) bool = forall i int :: 0 <= i && i < len(s) ==> !lessV(f, s[i], s[0])
+//@ define heapOK(s []interface{}, f ref) bool = heapShape(s, f) && rootFirst(s, f)
+// heap invariant of a PriorityQueue whose comparator is a strict weak order
+//@ define pqOrdered(q *PriorityQueue) bool = q.queue.lessFn != nil && swo(q.queue.lessFn) && heapOK(q.queue.items, q.queue.lessFn)
+
+// -- the heap.Interface adapter (type priorityQueue): what container/heap sees ----------------------
+//@ func (*priorityQueue).Len
+//@   props C16 C03
+//@   requires pq != nil
+//@   pure
+//@   ensures result == len(pq.items)
+//@ end
+
+//@ func (*priorityQueue).Less
+//@   props C16 C03
+//@   requires pq != nil
+//@   requires pq.lessFn != nil ==> 0 <= i && i < len(pq.items) && 0 <= j && j < len(pq.items)
+//@   pure
+//@   ensures [noComparator] pq.lessFn == nil ==> result == (i < j)
+//@   ensures [comparatorOnItems] pq.lessFn != nil ==> result == lessV(pq.lessFn, pq.items[i], pq.items[j])
+//@ end
+
+//@ func (priorityQueue).Swap
+//@   props C16 C03
+//@   requires 0 <= i && i < len(pq.items) && 0 <= j && j < len(pq.items)
+//@   modifies pq.items[i], pq.items[j]
+//@   ensures [swapped] pq.items[i] == old(pq.items[j]) && pq.items[j] == old(pq.items[i])
+//@ end
+
+//@ func (*priorityQueue).Push
+//@   props C16 C03
+//@   requires pq != nil
+//@   modifies pq.items
+//@   ensures [appended] len(pq.items) == old(len(pq.items)) + 1 && pq.items[old(len(pq.items))] == x
+//@   ensures [prefixKept] forall i int :: 0 <= i && i < old(len(pq.items)) ==> pq.items[i] == old(pq.items[i])
+//@   ensures [freshBacking] fresh(pq.items)
+//@ end
+
+//@ func (*priorityQueue).Pop
+//@   props C16 C03
+//@   requires pq != nil && len(pq.items) > 0
+//@   modifies pq.items
+//@   ensures [lastReturned] result == old(pq.items[len(pq.items) - 1])
+//@   ensures [shrunk] len(pq.items) == old(len(pq.items)) - 1 && samearray(pq.items, old(pq.items))
+//@   ensures [prefixKept] forall i int :: 0 <= i && i < len(pq.items) ==> pq.items[i] == old(pq.items[i])
+//@ end
+
+//@ func (*priorityQueue).Peek
+//@   props C16 C03
+//@   requires pq != nil
+//@   pure
+//@   ensures [emptyNil] len(pq.items) == 0 ==> result == nil
+//@   ensures [root] len(pq.items) > 0 ==> result == pq.items[0]
+//@ end
+
+// "a bounded PriorityQueue gives up the item it would pop last" (/repo 16edb70): the index of an element
+// that is handed out before no other element.
+//@ func (*priorityQueue).lastToPopIndex
+//@   props C16 C03
+//@   requires pq != nil
+//@   pure
+//@   loop 1
+//@     invariant 1 <= i && 0 <= last && last < i && (len(pq.items) > 0 ==> i <= len(pq.items))
+//@     invariant pq.lessFn == nil ==> last == i - 1
+//@     invariant pq.lessFn != nil && swo(pq.lessFn) ==> (forall j int :: 0 <= j && j < i && j < len(pq.items) ==> !lessV(pq.lessFn, pq.items[last], pq.items[j]))
+//@     decreases len(pq.items) + 1 - i
+//@   ensures [inRange] len(pq.items) > 0 ==> 0 <= result && result < len(pq.items)
+//@   ensures [noComparatorLastSlot] pq.lessFn == nil && len(pq.items) > 0 ==> result == len(pq.items) - 1
+//@   ensures [handedOutLast] pq.lessFn != nil && swo(pq.lessFn) ==> (forall j int :: 0 <= j && j < len(pq.items) ==> !lessV(pq.lessFn, pq.items[result], pq.items[j]))
+//@ end
+
+// -- container/heap (library, no body visible to the engine): ASSUMED contracts, stated on the item slice of the
+// adapter (its heap.Interface methods Len/Less/Swap/Push/Pop are verified above: Len = len(items), Less = lessV on
+// items, Swap exchanges two cells, Push appends, Pop drops the last cell). Every routine only calls those methods, so
+// the new items are a rearrangement of the old ones (plus x / minus the result) and lessFn is untouched.
+// Ordering part, as documented by container/heap ("Init establishes the heap invariants required by the other
+// routines", "Pop removes and returns the minimum element (according to Less)", "Pop is equivalent to Remove(h, 0)"):
+// for a comparator that is a strict weak order every routine keeps heapOK = the invariants + "nothing is handed out
+// before the root" (their consequence by induction over the depth, which SMT cannot do; assumed here together with the library).
+//@ define hq(h ref) *priorityQueue = unbox(h, "*priorityQueue")
+
+//@ func container/heap.Push
+//@   props C03 C16 C05 C09
+//@   trusted
+//@   note assumed library contract (container/heap.Push = h.Push(x); up(h, h.Len()-1)): permutation of the old items plus x; keeps the heap invariants for a strict weak order
+//@   requires typeis(h, "*priorityQueue") && hq(h) != nil
+//@   modifies hq(h).items, hq(h).items[*]
+//@   ensures [len] len(hq(h).items) == old(len(hq(h).items)) + 1
+//@   ensures [members] forall i int :: 0 <= i && i < len(hq(h).items) ==> hq(h).items[i] == x || (exists j int :: 0 <= j && j < old(len(hq(h).items)) && hq(h).items[i] == old(hq(h).items[j]))
+//@   ensures [oldKept] forall j int :: 0 <= j && j < old(len(hq(h).items)) ==> (exists i int :: 0 <= i && i < len(hq(h).items) && hq(h).items[i] == old(hq(h).items[j]))
+//@   ensures [pushedPresent] exists i int :: 0 <= i && i < len(hq(h).items) && hq(h).items[i] == x
+//@   ensures [backing] fresh(hq(h).items) || samearray(hq(h).items, old(hq(h).items))
+//@   ensures [noNewDuplicates] forall i1 int, i2 int :: 0 <= i1 && i1 < i2 && i2 < len(hq(h).items) && hq(h).items[i1] == hq(h).items[i2] ==> (exists j1 int, j2 int :: 0 <= j1 && j1 < j2 && j2 < old(len(hq(h).items)) && old(hq(h).items[j1]) == hq(h).items[i1] && old(hq(h).items[j2]) == hq(h).items[i1]) || (hq(h).items[i1] == x && (exists j int :: 0 <= j && j < old(len(hq(h).items)) && old(hq(h).items[j]) == x))
+//@   ensures [heapKept] hq(h).lessFn != nil && swo(hq(h).lessFn) && old(heapOK(hq(h).items, hq(h).lessFn)) ==> heapOK(hq(h).items, hq(h).lessFn)
+//@ end
+
+//@ func container/heap.Pop
+//@   props C03 C16 C05 C09
+//@   trusted
+//@   note assumed library contract (container/heap.Pop = Swap(0, n-1); down(0, n-1); return h.Pop()): returns the old root ("equivalent to Remove(h, 0)"), the rest is a permutation of the other old items in the same backing array; keeps the heap invariants for a strict weak order
+//@   requires typeis(h, "*priorityQueue") && hq(h) != nil && len(hq(h).items) > 0
+//@   modifies hq(h).items, hq(h).items[*]
+//@   ensures [which] result == old(hq(h).items[0])
+//@   ensures [len] len(hq(h).items) == old(len(hq(h).items)) - 1
+//@   ensures [members] forall i int :: 0 <= i && i < len(hq(h).items) ==> (exists j int :: 0 <= j && j < old(len(hq(h).items)) && hq(h).items[i] == old(hq(h).items[j]))
+//@   ensures [othersKept] forall j int :: 0 <= j && j < old(len(hq(h).items)) && j != 0 ==> (exists i int :: 0 <= i && i < len(hq(h).items) && hq(h).items[i] == old(hq(h).items[j]))
+//@   ensures [backing] samearray(hq(h).items, old(hq(h).items))
+//@   ensures [removedOnce] forall i int :: 0 <= i && i < len(hq(h).items) && hq(h).items[i] == result ==> (exists j1 int, j2 int :: 0 <= j1 && j1 < j2 && j2 < old(len(hq(h).items)) && old(hq(h).items[j1]) == result && old(hq(h).items[j2]) == result)
+//@   ensures [noNewDuplicates] forall i1 int, i2 int :: 0 <= i1 && i1 < i2 && i2 < len(hq(h).items) && hq(h).items[i1] == hq(h).items[i2] ==> (exists j1 int, j2 int :: 0 <= j1 && j1 < j2 && j2 < old(len(hq(h).items)) && old(hq(h).items[j1]) == hq(h).items[i1] && old(hq(h).items[j2]) == hq(h).items[i1])
+//@   ensures [heapKept] hq(h).lessFn != nil && swo(hq(h).lessFn) && old(heapOK(hq(h).items, hq(h).lessFn)) ==> heapOK(hq(h).items, hq(h).lessFn)
+//@ end
+
+//@ func container/heap.Remove
+//@   props C03 C16 C05 C09
+//@   trusted
+//@   note assumed library contract (container/heap.Remove = Swap(i, n-1); down/up; return h.Pop()): returns the old element at index i, the rest is a permutation of the other old items in the same backing array; keeps the heap invariants for a strict weak order
+//@   requires typeis(h, "*priorityQueue") && hq(h) != nil && 0 <= i && i < len(hq(h).items)
+//@   modifies hq(h).items, hq(h).items[*]
+//@   ensures [which] result == old(hq(h).items[i])
+//@   ensures [len] len(hq(h).items) == old(len(hq(h).items)) - 1
+//@   ensures [members] forall i int :: 0 <= i && i < len(hq(h).items) ==> (exists j int :: 0 <= j && j < old(len(hq(h).items)) && hq(h).items[i] == old(hq(h).items[j]))
+//@   ensures [othersKept] forall j int :: 0 <= j && j < old(len(hq(h).items)) && j != i ==> (exists i int :: 0 <= i && i < len(hq(h).items) && hq(h).items[i] == old(hq(h).items[j]))
+//@   ensures [backing] samearray(hq(h).items, old(hq(h).items))
+//@   ensures [removedOnce] forall i int :: 0 <= i && i < len(hq(h).items) && hq(h).items[i] == result ==> (exists j1 int, j2 int :: 0 <= j1 && j1 < j2 && j2 < old(len(hq(h).items)) && old(hq(h).items[j1]) == result && old(hq(h).items[j2]) == result)
+//@   ensures [noNewDuplicates] forall i1 int, i2 int :: 0 <= i1 && i1 < i2 && i2 < len(hq(h).items) && hq(h).items[i1] == hq(h).items[i2] ==> (exists j1 int, j2 int :: 0 <= j1 && j1 < j2 && j2 < old(len(hq(h).items)) && old(hq(h).items[j1]) == hq(h).items[i1] && old(hq(h).items[j2]) == hq(h).items[i1])
+//@   ensures [heapKept] hq(h).lessFn != nil && swo(hq(h).lessFn) && old(heapOK(hq(h).items, hq(h).lessFn)) ==> heapOK(hq(h).items, hq(h).lessFn)
+//@ end
+
+//@ func container/heap.Fix
+//@   props C03 C16 C05 C09
+//@   trusted
+//@   note assumed library contract (container/heap.Fix = down(i) or up(i)): a permutation of the items in place; keeps the heap invariants for a strict weak order whose verdicts did not change (lessV is state independent)
+//@   requires typeis(h, "*priorityQueue") && hq(h) != nil && 0 <= i && i < len(hq(h).items)
+//@   modifies hq(h).items[*]
+//@   ensures [members] forall i int :: 0 <= i && i < len(hq(h).items) ==> (exists j int :: 0 <= j && j < old(len(hq(h).items)) && hq(h).items[i] == old(hq(h).items[j]))
+//@   ensures [allKept] forall j int :: 0 <= j && j < old(len(hq(h).items)) ==> (exists i int :: 0 <= i && i < len(hq(h).items) && hq(h).items[i] == old(hq(h).items[j]))
+//@   ensures [noNewDuplicates] forall i1 int, i2 int :: 0 <= i1 && i1 < i2 && i2 < len(hq(h).items) && hq(h).items[i1] == hq(h).items[i2] ==> (exists j1 int, j2 int :: 0 <= j1 && j1 < j2 && j2 < old(len(hq(h).items)) && old(hq(h).items[j1]) == hq(h).items[i1] && old(hq(h).items[j2]) == hq(h).items[i1])
+//@   ensures [heapKept] hq(h).lessFn != nil && swo(hq(h).lessFn) && old(heapOK(hq(h).items, hq(h).lessFn)) ==> heapOK(hq(h).items, hq(h).lessFn)
+//@ end
+
+//@ func container/heap.Init
+//@   props C03 C16 C05 C09
+//@   trusted
+//@   note assumed library contract (container/heap.Init = heapify): a permutation of the items in place; establishes the heap invariants for a strict weak order. Not called by the repo today.
+//@   requires typeis(h, "*priorityQueue") && hq(h) != nil
+//@   modifies hq(h).items[*]
+//@   ensures [members] forall i int :: 0 <= i && i < len(hq(h).items) ==> (exists j int :: 0 <= j && j < old(len(hq(h).items)) && hq(h).items[i] == old(hq(h).items[j]))
+//@   ensures [allKept] forall j int :: 0 <= j && j < old(len(hq(h).items)) ==> (exists i int :: 0 <= i && i < len(hq(h).items) && hq(h).items[i] == old(hq(h).items[j]))
+//@   ensures [noNewDuplicates] forall i1 int, i2 int :: 0 <= i1 && i1 < i2 && i2 < len(hq(h).items) && hq(h).items[i1] == hq(h).items[i2] ==> (exists j1 int, j2 int :: 0 <= j1 && j1 < j2 && j2 < old(len(hq(h).items)) && old(hq(h).items[j1]) == hq(h).items[i1] && old(hq(h).items[j2]) == hq(h).items[i1])
+//@   ensures [heapEstablished] hq(h).lessFn != nil && swo(hq(h).lessFn) ==> heapOK(hq(h).items, hq(h).lessFn)
+//@ end
+
+// -- the exported queue: verified against the assumed container/heap contracts ---------------------------
 //@ func NewPriorityQueue
 //@   props C03 C16 C05 C09
 //@   fresh
 //@   ensures result != nil && len(result.queue.items) == 0 && result.maxQueueSize == maxQueueSize && result.queue.lessFn == lessFn
 //@   ensures [freshBacking] fresh(result.queue.items)
+//@   ensures [ordered] lessFn != nil && swo(lessFn) ==> pqOrdered(result)
 //@ end
 
 //@ func (*PriorityQueue).Empty
@@ -53,10 +230,22 @@ package scheduler_util
 //@   ensures result == len(q.queue.items)
 //@ end
 
+// C16: the element handed out next is one before which no other element of the queue is handed out.
+//@ func (*PriorityQueue).Peek
+//@   props C03 C16 C05 C09
+//@   requires q != nil
+//@   pure
+//@   ensures [emptyNil] len(q.queue.items) == 0 ==> result == nil
+//@   ensures [root] len(q.queue.items) > 0 ==> result == q.queue.items[0]
+//@   ensures [best] pqOrdered(q) ==> (forall j int :: 0 <= j && j < len(q.queue.items) ==> !lessV(q.queue.lessFn, q.queue.items[j], result))
+//@ end
+
+// Push: length, membership and multiplicity as before (clients: podgroup_info, resource_division, actions/utils), plus:
+// [oldKeptUnbounded] nothing is lost without a bound; [orderKept] the heap invariants survive; [keepsBest] (/repo 16edb70,
+// "a bounded PriorityQueue gives up the item it would pop last"): an element of old items + `it` that is no longer in the
+// queue is handed out before none of the elements that stayed.
 //@ func (*PriorityQueue).Push
 //@   props C03 C16 C05 C09
-//@   trusted
-//@   note container/heap (heap.Push / heap.Remove call back into the sort.Interface methods of priorityQueue) is external library code outside the subset; the contract states counts, membership and multiplicity only (heap.Push appends then sifts = permutation of old items plus `it`; heap.Remove(maxQueueSize) drops one element when the bound is exceeded). A maxQueueSize < -1 would make heap.Remove panic; not covered.
 //@   requires q != nil
 //@   modifies q.queue.items, q.queue.items[*]
 //@   ensures [lenUnbounded] q.maxQueueSize == QueueCapacityInfinite ==> len(q.queue.items) == old(len(q.queue.items)) + 1
@@ -65,12 +254,17 @@ package scheduler_util
 //@   ensures [pushedPresentUnbounded] q.maxQueueSize == QueueCapacityInfinite ==> pqHas(q, it, len(q.queue.items))
 //@   ensures [backing] fresh(q.queue.items) || samearray(q.queue.items, old(q.queue.items))
 //@   ensures [noNewDuplicates] forall i1 int, i2 int :: 0 <= i1 && i1 < i2 && i2 < len(q.queue.items) && q.queue.items[i1] == q.queue.items[i2] ==> (exists j1 int, j2 int :: 0 <= j1 && j1 < j2 && j2 < old(len(q.queue.items)) && old(q.queue.items[j1]) == q.queue.items[i1] && old(q.queue.items[j2]) == q.queue.items[i1]) || (q.queue.items[i1] == it && (exists j int :: 0 <= j && j < old(len(q.queue.items)) && old(q.queue.items[j]) == it))
+//@   ensures [oldKeptNoOverflow] q.maxQueueSize == QueueCapacityInfinite || old(len(q.queue.items)) + 1 <= q.maxQueueSize ==> (forall j int :: 0 <= j && j < old(len(q.queue.items)) ==> (exists i int :: 0 <= i && i < len(q.queue.items) && q.queue.items[i] == old(q.queue.items[j])))
+//@   ensures [pushedPresentNoOverflow] q.maxQueueSize == QueueCapacityInfinite || old(len(q.queue.items)) + 1 <= q.maxQueueSize ==> pqHas(q, it, len(q.queue.items))
+//@   ensures [orderKept] old(pqOrdered(q)) ==> pqOrdered(q)
+//@   ensures [keepsBestOld] q.queue.lessFn != nil && swo(q.queue.lessFn) ==> (forall j int, i int :: 0 <= j && j < old(len(q.queue.items)) && 0 <= i && i < len(q.queue.items) && !pqHas(q, old(q.queue.items[j]), len(q.queue.items)) ==> !lessV(q.queue.lessFn, old(q.queue.items[j]), q.queue.items[i]))
+//@   ensures [keepsBestNew] q.queue.lessFn != nil && swo(q.queue.lessFn) ==> (forall i int :: 0 <= i && i < len(q.queue.items) && !pqHas(q, it, len(q.queue.items)) ==> !lessV(q.queue.lessFn, it, q.queue.items[i]))
 //@ end
 
+// Pop: as before, plus [first] it is the element Peek shows, [othersKept] nothing else is lost, [orderKept], and C16
+// [handsOutBest]: no element of the queue is handed out before the one returned.
 //@ func (*PriorityQueue).Pop
 //@   props C03 C16 C05 C09
-//@   trusted
-//@   note container/heap.Pop is external library code outside the subset (swaps first and last, sifts down, calls priorityQueue.Pop which drops the last element): the new items are a permutation of the old items minus one occurrence of the result, in the same backing array; counts, membership and multiplicity only, no ordering claim.
 //@   requires q != nil
 //@   modifies q.queue.items, q.queue.items[*]
 //@   ensures [empty] old(len(q.queue.items)) == 0 ==> result == nil && len(q.queue.items) == 0
@@ -80,4 +274,19 @@ package scheduler_util
 //@   ensures [backing] samearray(q.queue.items, old(q.queue.items))
 //@   ensures [removedOnce] forall i int :: 0 <= i && i < len(q.queue.items) && q.queue.items[i] == result ==> (exists j1 int, j2 int :: 0 <= j1 && j1 < j2 && j2 < old(len(q.queue.items)) && old(q.queue.items[j1]) == result && old(q.queue.items[j2]) == result)
 //@   ensures [noNewDuplicates] forall i1 int, i2 int :: 0 <= i1 && i1 < i2 && i2 < len(q.queue.items) && q.queue.items[i1] == q.queue.items[i2] ==> (exists j1 int, j2 int :: 0 <= j1 && j1 < j2 && j2 < old(len(q.queue.items)) && old(q.queue.items[j1]) == q.queue.items[i1] && old(q.queue.items[j2]) == q.queue.items[i1])
+//@   ensures [first] old(len(q.queue.items)) > 0 ==> result == old(q.queue.items[0])
+//@   ensures [othersKept] forall j int :: 0 <= j && j < old(len(q.queue.items)) && j != 0 ==> (exists i int :: 0 <= i && i < len(q.queue.items) && q.queue.items[i] == old(q.queue.items[j]))
+//@   ensures [orderKept] old(pqOrdered(q)) ==> pqOrdered(q)
+//@   ensures [handsOutBest] old(pqOrdered(q)) ==> (forall j int :: 0 <= j && j < old(len(q.queue.items)) ==> !lessV(q.queue.lessFn, old(q.queue.items[j]), result))
+//@ end
+
+// Fix(index): re-sifts one element after its ordering key changed (used by actions/utils for queue nodes): a permutation in place.
+//@ func (*PriorityQueue).Fix
+//@   props C03 C16 C05 C09
+//@   requires q != nil && 0 <= index && index < len(q.queue.items)
+//@   modifies q.queue.items[*]
+//@   ensures [members] forall i int :: 0 <= i && i < len(q.queue.items) ==> (exists j int :: 0 <= j && j < old(len(q.queue.items)) && q.queue.items[i] == old(q.queue.items[j]))
+//@   ensures [allKept] forall j int :: 0 <= j && j < old(len(q.queue.items)) ==> (exists i int :: 0 <= i && i < len(q.queue.items) && q.queue.items[i] == old(q.queue.items[j]))
+//@   ensures [noNewDuplicates] forall i1 int, i2 int :: 0 <= i1 && i1 < i2 && i2 < len(q.queue.items) && q.queue.items[i1] == q.queue.items[i2] ==> (exists j1 int, j2 int :: 0 <= j1 && j1 < j2 && j2 < old(len(q.queue.items)) && old(q.queue.items[j1]) == q.queue.items[i1] && old(q.queue.items[j2]) == q.queue.items[i1])
+//@   ensures [orderKept] old(pqOrdered(q)) ==> pqOrdered(q)
 //@ end
